@@ -10,7 +10,9 @@ import socket
 from common import Case, W, hexs, optint, plist, tf, errname, value_classes, rand_value
 import common
 import platform_cases
-from props.c01 import (ref_strict4, ref_rfc4291, ref_quad, ref_ntop6, ref_pyint10, std_parse, edits, NEAR4, NEAR6)
+from props.c01 import (ref_strict4, ref_rfc4291, ref_quad, ref_ntop6, ref_pyint10, std_parse, edits, NEAR4, NEAR6, spelling6)
+import random as _random
+from zlib import crc32 as _crc32
 
 ID = 'C03'
 RULE = ('every prefix 0..width x structured values x both families, each spelled as a/p, a/netmask, a/hostmask, tuple, '
@@ -163,6 +165,10 @@ def spell_case(ver, v, p, form, explicit, flags, implicit):
     w = W[ver]
     full = (1 << w) - 1
     a = ref_addr_str(ver, v)
+    if ver == 6 and _crc32(('%d/%d/%s' % (v, p, form)).encode()) % 3 == 0:
+        # another valid RFC 4291 spelling of the same address (padded groups, dotted-quad tail, '::' for any zero run,
+        # up to 45 characters) - every notation of the property is a notation whatever the spelling of its address part
+        a = spelling6(_random.Random('%d/%d/%s' % (v, p, form)), v)
     pver = ver if explicit else None
     if form == 'prefix':
         s = '%s/%d' % (a, p)
